@@ -6,7 +6,7 @@ from typing import Any, Dict, List, Optional, Set, Tuple
 
 from .. import heval, termrules as T
 from ..report import AnalysisError, Ctx
-from ..values import NodeV
+from ..values import AbsList, FuncV, NodeV, RefV, Sym
 
 EXPLANATION = (
     "Taint analysis over the constructor terms the Django and SQLAlchemy (ORM, Core) visitors build. Every handler is "
@@ -75,6 +75,39 @@ def run(ctx: Ctx, env):
                 counts |= set(range(lo, hi + 1))
             for n in sorted(counts):
                 paths += [(f"{hn}/{n}", p) for p in H.eval_func(vcls, hn, n)]
+        # operator handlers hand back a callable (lambda a, b: a.in_(b), operator.add, ...): apply it to opaque operands so that
+        # what it builds is inspected as well
+        applied: List[Tuple[str, Any]] = []
+        for label, p in paths:
+            if p.outcome == "return" and isinstance(p.value, FuncV):
+                it2 = env.interp()
+                fv = p.value
+
+                def setup2(it_, fv=fv):
+                    rhs = AbsList(Sym("call", RefV("sqlalchemy.sql.expression.BindParameter"), (), ()), 0)
+                    return fv.module, _APPLY, [fv, Sym("operand", "left"), rhs], {}, None
+
+                try:
+                    for q2 in it2.explore(setup2, max_paths=500):
+                        q2.entry["handler"] = p.entry.get("handler", "?")
+                        q2.entry["where"] = p.entry.get("where", "")
+                        applied.append((label + "()", q2))
+                except AnalysisError:
+                    raise
+        for label, p in paths + applied:
+            if p.outcome != "return":
+                continue
+            term0 = T.norm(p.value)
+            for sub0, _par in T.walk(term0):
+                if isinstance(sub0, tuple) and sub0 and sub0[0] == "call" and isinstance(sub0[1], tuple) and sub0[1][0] == "ref":
+                    nm = T.short(sub0[1][1])
+                    kw0 = dict(sub0[3]) if len(sub0) > 3 and sub0[3] else {}
+                    if nm in ("bindparam", "literal", "BindParameter") and kw0.get("literal_execute") not in (None, ("const", False), ("const", None)):
+                        ho = ".".join(p.entry.get("handler", "?").rsplit(".", 2)[-2:])
+                        ctx.fail("R1.no-inlining-construct", f"{ho}|{nm}|literal_execute",
+                                 f"[{vs}] {label}: builds {nm}(..., literal_execute=True): SQLAlchemy renders such a parameter into the statement text "
+                                 "at execution time, so filter values end up in the SQL string", p.entry.get("where", ""),
+                                 "id in (1, 2, ..., 501)  vs  id in (2, 3, ..., 502)")
         for label, p in paths:
             if p.outcome != "return":
                 continue
@@ -127,6 +160,9 @@ def _classify(sub, parents) -> Tuple[str, str]:
                 # method call on a built expression, e.g. x.in_(...), col.contains(v): the value must already be wrapped
                 return "text", "is passed unwrapped to a method of an expression object"
             if name in BINDING:
+                kw = dict(anc[3]) if len(anc) > 3 and anc[3] else {}
+                if name in ("bindparam", "literal") and kw.get("literal_execute") not in (None, ("const", False), ("const", None)):
+                    return "text", f"is the value of {name}(..., literal_execute=True): SQLAlchemy renders it into the statement text at execution time"
                 return "bound", f"is the value of {name}(...)"
             if name in TEXT_SINKS:
                 return "text", f"is spliced into SQL text through {name}(...)"
@@ -246,3 +282,6 @@ def _guarded_by_lt4(fn: ast.FunctionDef, call: ast.Call, repo=None, m=None) -> b
             if any(x is call for b in n.body for x in ast.walk(b)):
                 return True
     return False
+
+
+_APPLY = ast.parse("def __apply__(f, a, b):\n    return f(a, b)\n").body[0]
